@@ -804,6 +804,14 @@ def run(rep, tier):
                       "std: HashMap/HashSet are the only randomly seeded containers; IndexMap/BTreeMap iterate deterministically"],
         assumptions=["same WIT input, options, environment variables, tool versions and an empty output directory"],
     )
+    rep.rule("R15.1", "every order-yielding use of a std HashMap/HashSet is in rules/c15_sites.json and its guard "
+                      "(sorted_after / keyed_sink / commutative / lookup_only / returned) still holds on the MIR")
+    rep.rule("R15.2", "Files is a BTreeMap; outputs are enumerated only through Files::iter; the CLI writes/compares "
+                      "files only inside its single loop over Files::iter")
+    rep.rule("R15.3", "no clock, explicit RandomState, thread, pointer formatting, pointer-to-integer cast, environment "
+                      "variable or subprocess in the generator crates, the CLI or the macro outside the enumerated sites")
+    rep.rule("R15.4", "no file-system probe (exists / metadata / read / read_dir / canonicalize) outside the enumerated "
+                      "input-discovery and check-mode sites: output must not depend on what an earlier run wrote")
     crates = {}
     for cn, kind in CRATES:
         def ld(cn=cn, kind=kind):
